@@ -26,6 +26,7 @@ import (
 
 // pair is a two-client world with a number of ledger channels between them.
 type pair struct {
+	slowNext       map[string]time.Duration      // node name -> extra reaction time for its next decision
 	cancelOnEnable bool                          // the next pay cancels its context when its state is enabled
 	coe            map[string]context.CancelFunc // armed cancellations by side:channel
 	midClose       func()                        // C03: runs between a sub-channel's final update and its settlement
@@ -129,6 +130,12 @@ func (p *pair) installPolicies(n *world.Node) {
 		n.OnUpdate = func(cur *channel.State, u client.ChannelUpdate) (bool, time.Duration) {
 			key := fmt.Sprintf("decide:%s:%s:v%d", n.Name, s.ChanName(u.State.ID), u.State.Version)
 			react := s.Delay("react:"+key, 0, reactMax)
+			p.mu.Lock()
+			if d, ok := p.slowNext[n.Name]; ok {
+				delete(p.slowNext, n.Name)
+				react += d // this one decision takes long
+			}
+			p.mu.Unlock()
 			if isProbe(cur, u.State) {
 				return true, react
 			}
